@@ -413,6 +413,14 @@ def std_transfer(I, fr, t, c, pth):
                 fr.store_through(args[1], Agg([], w.kind))
                 return True
             return False
+        if name == 'resize' and len(args) == 3:
+            v = fr.deref_operand(args[0])
+            n_ = as_int(fr.operand(args[1]))
+            if isinstance(v, Agg) and n_ is not None and n_ <= 65536:
+                items = list(v.items[:n_]) + [fr.operand(args[2])] * max(0, n_ - len(v.items))
+                fr.store_through(args[0], Agg(items, v.kind))
+                return True
+            return False
         if name == 'len':
             v = seq_of(I, fr, args[0])
             if isinstance(v, Agg):
